@@ -144,6 +144,14 @@ Fixpoint veval (e : env) (s : store) (x : vexpr) : val :=
   | VMul p q => vbin nmul (veval e s p) (veval e s q)
   | VDiv p q => vbin ndiv (veval e s p) (veval e s q)
   end.
+Fixpoint deval (e : env) (s : store) (d : dstmt) : val :=
+  match d with
+  | DAssign x => veval e s x
+  | DIf c t f => if cval e c then deval e s t else deval e s f
+  end.
+(* does the direct body test its scalars at all? (false for the single assignment
+   out.data[:] = a * x1.data + b * x2.data) *)
+Definition is_guarded (d : dstmt) : bool := match d with DAssign _ => false | DIf _ _ _ => true end.
 (* arr[:] = v ; [cast] is the conversion to the array's dtype (identity for
    floating dtypes, truncation towards zero for integer dtypes) *)
 Definition assign_all (cast : T -> T) (old : list T) (v : val) : list T :=
@@ -157,7 +165,7 @@ Fixpoint lincomb_fuel (fuel : nat) (cast : T -> T) (r : regime) (bi : blasinfo) 
   | O => OutOfFuel
   | S f =>
       match r with
-      | Direct => Ok (upd s (e_out e) (assign_all cast (s (e_out e)) (veval e s direct_expr)))
+      | Direct => Ok (upd s (e_out e) (assign_all cast (s (e_out e)) (deval e s direct_body)))
       | _ => exec_list (lincomb_fuel f cast r bi) r bi e alias_tree s
       end
   end.
